@@ -6,6 +6,7 @@ package main
 
 import (
 	"bytes"
+	"encoding/json"
 	"fmt"
 	"io"
 	"os"
@@ -67,6 +68,14 @@ func parent(id, tier string) int {
 	}
 	cmd := exec.Command(os.Args[0], os.Args[1:]...)
 	cmd.Env = append(os.Environ(), "VERIF_CHILD=1", "GOTRACEBACK=all")
+	racePrefix := filepath.Join(logDir, id+".race")
+	if checks.RaceEnabled {
+		old, _ := filepath.Glob(racePrefix + ".*")
+		for _, f := range old {
+			_ = os.Remove(f)
+		}
+		cmd.Env = append(cmd.Env, "GORACE=halt_on_error=0 exitcode=0 history_size=5 log_path="+racePrefix)
+	}
 	var tail ring
 	cmd.Stdout = os.Stdout
 	cmd.Stderr = io.MultiWriter(errFile, &tail)
@@ -93,14 +102,19 @@ func parent(id, tier string) int {
 		fmt.Fprintf(os.Stderr, "check %s exceeded its wall-clock watchdog (%v): inconclusive, see %s\n", id, limit, errPath)
 		return 2
 	}
-	if err == nil {
-		return 0
-	}
-	code := 2
-	if ee, ok := err.(*exec.ExitError); ok {
-		code = ee.ExitCode()
+	code := 0
+	if err != nil {
+		code = 2
+		if ee, ok := err.(*exec.ExitError); ok {
+			code = ee.ExitCode()
+		}
 	}
 	if code == 1 || code == 0 {
+		if checks.RaceEnabled && os.Getenv("VERIF_REPLAY_KEY") == "" {
+			if rc := raceReports(id, dir, racePrefix); rc > code {
+				code = rc
+			}
+		}
 		return code
 	}
 	out := tail.String()
@@ -157,4 +171,105 @@ func memoryWatchdog() {
 			os.Exit(2)
 		}
 	}
+}
+
+// raceReports parses the race detector's log files, de-duplicates the report
+// blocks, attributes them (a block with a connect-go frame is the library's),
+// adds the counts to the evidence file and returns 1 if the library raced.
+func raceReports(id, dir, prefix string) int {
+	files, _ := filepath.Glob(prefix + ".*")
+	type block struct {
+		text string
+		lib  bool
+		key  string
+	}
+	seen := map[string]*block{}
+	total := 0
+	for _, f := range files {
+		b, err := os.ReadFile(f)
+		if err != nil {
+			continue
+		}
+		for _, part := range strings.Split(string(b), "==================") {
+			if !strings.Contains(part, "WARNING: DATA RACE") {
+				continue
+			}
+			total++
+			var frames []string
+			lib := false
+			for _, line := range strings.Split(part, "\n") {
+				t := strings.TrimSpace(line)
+				if strings.HasPrefix(t, "github.com/bufbuild/connect-go.") || strings.HasPrefix(t, "github.com/bufbuild/connect-go/") {
+					lib = true
+					if i := strings.Index(t, "("); i > 0 && len(frames) < 4 {
+						frames = append(frames, t[:strings.LastIndex(t, "(")])
+					}
+				}
+			}
+			key := strings.Join(frames, " | ")
+			if key == "" {
+				key = "non-library:" + firstFrame(part)
+			}
+			if _, ok := seen[key]; !ok {
+				seen[key] = &block{text: part, lib: lib, key: key}
+			}
+		}
+	}
+	libBlocks, other := 0, 0
+	rc := 0
+	for _, b := range seen {
+		if b.lib {
+			libBlocks++
+			sum := 0
+			for _, c := range b.key {
+				sum = sum*31 + int(c)
+			}
+			replay := filepath.Join(dir, "replays", fmt.Sprintf("%s-race-%08x.txt", id, uint32(sum)))
+			_ = os.MkdirAll(filepath.Dir(replay), 0o755)
+			_ = os.WriteFile(replay, []byte(b.text), 0o644)
+			fmt.Printf("VIOLATION property=%s replay=%s\n", id, replay)
+			fmt.Printf("  what: data race reported by the Go race detector with library frames: %s\n", b.key)
+			rc = 1
+		} else {
+			other++
+			fmt.Fprintf(os.Stderr, "race report without library frames (harness or runtime): %s\n", b.key)
+		}
+	}
+	// fold the counts into the evidence file
+	evPath := filepath.Join(dir, "evidence", id+".json")
+	if raw, err := os.ReadFile(evPath); err == nil {
+		var doc map[string]any
+		if json.Unmarshal(raw, &doc) == nil {
+			if cov, ok := doc["coverage"].(map[string]any); ok {
+				cov["race_reports_total"] = total
+				cov["race_reports_distinct_with_library_frames"] = libBlocks
+				cov["race_reports_distinct_without_library_frames"] = other
+				cov["race_log_files"] = len(files)
+			}
+			if libBlocks > 0 {
+				if v, ok := doc["violations"].(float64); ok {
+					doc["violations"] = v + float64(libBlocks)
+				}
+			}
+			if out, err := json.MarshalIndent(doc, "", " "); err == nil {
+				_ = os.WriteFile(evPath, out, 0o644)
+			}
+		}
+	}
+	fmt.Printf("race detector: %d report blocks, %d distinct with library frames, %d distinct without\n", total, libBlocks, other)
+	if rc == 0 && other > 0 {
+		fmt.Fprintln(os.Stderr, "BROKEN: the harness itself raced; fix the harness")
+		return 2
+	}
+	return rc
+}
+
+func firstFrame(part string) string {
+	for _, line := range strings.Split(part, "\n") {
+		t := strings.TrimSpace(line)
+		if strings.Contains(t, "(") && strings.Contains(t, ".") && !strings.HasPrefix(t, "WARNING") && !strings.HasPrefix(t, "Write") && !strings.HasPrefix(t, "Read") && !strings.HasPrefix(t, "Previous") && !strings.HasPrefix(t, "Goroutine") {
+			return t
+		}
+	}
+	return "?"
 }
